@@ -11,7 +11,8 @@
 (* (Faults in this format reach the emulator's mock hook: the spec says    *)
 (* NotImpl for each, so the fault decision is what is compared.)           *)
 (***************************************************************************)
-EXTENDS VMSA
+EXTENDS VMSA, Json
+CONSTANTS GEN                            \* TRUE: a reduced index set, every finished scenario printed for replay on the real code
 VARIABLES sc
 vars == <<sc>>
 MkWordBits(pairs) == LET RECURSIVE f(_) f(k) == IF k = 0 THEN Zero ELSE SetBitW(f(k - 1), pairs[k][1], pairs[k][2]) IN f(Len(pairs))
@@ -53,7 +54,8 @@ S(p) ==
 Init == sc = [stage |-> 0]
 Pick1 == sc.stage = 0 /\ \E shape \in Shapes, ap \in 0..3, af \in {0, 1}, apt1 \in 0..3, apt2 \in 0..3 :
            sc' = [stage |-> 1, shape |-> shape, ap |-> ap, af |-> af, apt1 |-> apt1, apt2 |-> apt2]
-Pick2 == sc.stage = 1 /\ \E t0sz \in {0, 1, 2, 3}, epd0 \in {0, 1}, i1 \in {0, 1}, i2 \in {0, 5, 255}, i3 \in {0, 7, 511},
+Pick2 == sc.stage = 1 /\ \E t0sz \in (IF GEN THEN {0, 2} ELSE {0, 1, 2, 3}), epd0 \in (IF GEN THEN {0} ELSE {0, 1}), i1 \in {0, 1},
+                            i2 \in (IF GEN THEN {5} ELSE {0, 5, 255}), i3 \in (IF GEN THEN {7} ELSE {0, 7, 511}),
                             priv \in BOOLEAN, wr \in BOOLEAN :
            /\ (t0sz >= 2 => i1 = 0)
            /\ (t0sz >= 2 => sc.shape \notin {"l1inv", "l1block"})          \* the walk starts at level 2: no level-1 descriptor
@@ -80,6 +82,10 @@ ExpPA == WOr(OutBaseLD(sc.shape), WAnd(VA(sc), WNot(TopMask(32 - BlockBits))))
 OutcomeOK == Done =>
   CASE Expected = "ok" -> Ok(T.x) /\ ~T.x.unp /\ T.pa = ExpPA /\ T.ext = 37
     [] OTHER -> T.x.ni = "tlb_lookup_came_from_cache_maintenance" /\ T.x.ab.t = "none"
+\* spec -> code: the scenario as the harness needs it (system registers, the descriptor bytes, the probe)
+Emit == (GEN /\ Done) =>
+  PrintT(ToJson([p |-> sc, va |-> VA(sc), w |-> MemFor(sc).w, ttbcr |-> S(sc).sys.TTBCR, ttbr0 |-> S(sc).sys.TTBR0,
+                 mair0 |-> S(sc).sys.MAIR0, sctlr |-> S(sc).sys.SCTLR, expected |-> Expected]))
 \* vacuity probes (expected to be VIOLATED; run by hand): successful walks of every leaf kind exist
 NeverOkPage == Done => ~(Expected = "ok" /\ sc.shape = "page" /\ sc.t0sz = 3 /\ sc.apt1 = 0 /\ sc.apt2 = 1)
 =============================================================================
